@@ -10,7 +10,7 @@ tmp=$(mktemp -d /tmp/matrix.XXXX)
 one() {
   id=$1; prop=${id:0:3}; d=seeded/$id
   if ! grep -q '"demo_with_patch_exit":[1-9]' $d/confirm.json 2>/dev/null; then
-    echo -e "$id\t$prop\tobsolete\t-\tdemo does not fail on the current HEAD (made harmless by a fix commit)"; return
+    printf '%s\t%s\tobsolete\t-\tdemo does not fail on the current HEAD (made harmless by a fix commit)\n' "$id" "$prop"; return
   fi
   line=$(tools/try_seeded_wt.sh $id $prop 2>&1 | grep -- "->" | head -1)
   code=$(echo "$line" | sed -n 's/.*exit=\([0-9]*\).*/\1/p')
@@ -23,7 +23,7 @@ one() {
     done
   fi
   det=no; [ "$code" = "1" ] && det="yes"; [ "$by" != "$prop" ] && det="yes (by $by)"
-  echo -e "$id\t$prop\t$det\t$code\t$(echo "$line" | sed 's/.*violations=[0-9]* *//' | cut -c1-200)"
+  printf '%s\t%s\t%s\t%s\t%s\n' "$id" "$prop" "$det" "$code" "$(printf '%s' "$line" | sed 's/.*violations=[0-9]* *//' | tr '\t' ' ' | cut -c1-200)"
 }
 export -f one
 printf "%s\n" $ids | xargs -P $P -I{} bash -c 'one {} > '$tmp'/{}.row'
